@@ -3,8 +3,8 @@
 package handlers
 
 import (
-	"github.com/mimecast/dtail/internal/io/line"
 	"context"
+	"github.com/mimecast/dtail/internal/io/line"
 
 	"github.com/mimecast/dtail/internal/lcontext"
 	"github.com/mimecast/dtail/internal/omode"
